@@ -6,9 +6,9 @@
    "how much text an item swallows and where lexing resumes" is explicit:
      - prev_str  : the token ends before the character just read, which is read again;
      - current_str : the item includes the character just read (this is how every direct
-       `Err(Error::with_loc(.., self.current_str() ..))` swallows the offending character);
+       `IErr(Error::with_loc(.., self.current_str() ..))` swallows the offending character);
      - drain : everything to the end of input.
-   In-string errors (add_err) turn the whole string token into one Err item (Cursor::done).
+   In-string errors (add_err) turn the whole string token into one IErr item (Cursor::done).
 
    Not represented: the error message; `self.err` being inspected in `eof` for the non-string states
    (dead: err is only set inside a quoted string and cleared by `done` when the string ends, or the
@@ -16,167 +16,167 @@
 From ApolloVerif Require Import Base.Chars Lex.Item.
 
 (* ---- character classes of lexer/mod.rs and lookup.rs ---- *)
-Definition is_ws (c : N) : bool :=          (* is_whitespace_assimilated *)
+Definition lx_is_ws (c : N) : bool :=          (* is_whitespace_assimilated *)
   (c =? 9) || (c =? 32) || (c =? 10) || (c =? 13) || (c =? 65279).
-Definition is_line_term (c : N) : bool := (c =? 10) || (c =? 13).
-Definition not_line_term (c : N) : bool := negb (is_line_term c).
-Definition is_escaped_char (c : N) : bool :=  (* quote  \  /  b  f  n  r  t *)
+Definition lx_is_line_term (c : N) : bool := (c =? 10) || (c =? 13).
+Definition lx_not_line_term (c : N) : bool := negb (lx_is_line_term c).
+Definition lx_is_escaped_char (c : N) : bool :=  (* quote  \  /  b  f  n  r  t *)
   (c =? 34) || (c =? 92) || (c =? 47) || (c =? 98) || (c =? 102) || (c =? 110) || (c =? 114) || (c =? 116).
-Definition is_hex (c : N) : bool :=
+Definition lx_is_hex (c : N) : bool :=
   is_digit c || ((65 <=? c) && (c <=? 70)) || ((97 <=? c) && (c <=? 102)).
-Definition hexval (c : N) : N :=
+Definition lx_hexval (c : N) : N :=
   if is_digit c then c - 48 else if c <=? 70 then c - 55 else c - 87.
-Definition is_exp_ind (c : N) : bool := (c =? 101) || (c =? 69).
-Definition is_surrogate (v : N) : bool := (55296 <=? v) && (v <? 57344).
+Definition lx_is_exp_ind (c : N) : bool := (c =? 101) || (c =? 69).
+Definition lx_is_surrogate (v : N) : bool := (55296 <=? v) && (v <? 57344).
 
-Definition punct_kind (c : N) : option tkind :=   (* lookup::punctuation_kind *)
-  if c =? 123 then Some LCurly else if c =? 125 then Some RCurly
-  else if c =? 33 then Some Bang else if c =? 36 then Some Dollar
-  else if c =? 38 then Some Amp else if c =? 40 then Some LParen
-  else if c =? 41 then Some RParen else if c =? 58 then Some Colon
-  else if c =? 44 then Some Comma else if c =? 91 then Some LBracket
-  else if c =? 93 then Some RBracket else if c =? 61 then Some Eq
-  else if c =? 64 then Some At else if c =? 124 then Some Pipe
+Definition lx_punct_kind (c : N) : option tkind :=   (* lookup::punctuation_kind *)
+  if c =? 123 then Some TkLCurly else if c =? 125 then Some TkRCurly
+  else if c =? 33 then Some TkBang else if c =? 36 then Some TkDollar
+  else if c =? 38 then Some TkAmp else if c =? 40 then Some TkLParen
+  else if c =? 41 then Some TkRParen else if c =? 58 then Some TkColon
+  else if c =? 44 then Some TkComma else if c =? 91 then Some TkLBracket
+  else if c =? 93 then Some TkRBracket else if c =? 61 then Some TkEq
+  else if c =? 64 then Some TkAt else if c =? 124 then Some TkPipe
   else None.
 
 (* numbering of token kinds for the wire format (the OCaml glue must not depend on how extraction
-   renames constructors that clash with OCaml's own, e.g. Eq) : the discriminant of TokenKind *)
+   renames constructors that clash with OCaml's own, e.g. TkEq) : the discriminant of TokenKind *)
 Definition tkind_code (k : tkind) : N :=
   match k with
-  | Whitespace => 0 | Comment => 1 | Bang => 2 | Dollar => 3 | Amp => 4 | Spread => 5 | Comma => 6
-  | Colon => 7 | Eq => 8 | At => 9 | LParen => 10 | RParen => 11 | LBracket => 12 | RBracket => 13
-  | LCurly => 14 | RCurly => 15 | Pipe => 16 | Eof => 17 | Name => 18 | StringValue => 19
-  | Int => 20 | Float => 21
+  | TkWhitespace => 0 | TkComment => 1 | TkBang => 2 | TkDollar => 3 | TkAmp => 4 | TkSpread => 5 | TkComma => 6
+  | TkColon => 7 | TkEq => 8 | TkAt => 9 | TkLParen => 10 | TkRParen => 11 | TkLBracket => 12 | TkRBracket => 13
+  | TkLCurly => 14 | TkRCurly => 15 | TkPipe => 16 | TkEof => 17 | TkName => 18 | TkStringValue => 19
+  | TkInt => 20 | TkFloat => 21
   end.
 
 (* longest prefix whose characters satisfy p *)
-Fixpoint span (p : N -> bool) (s : str) : str * str :=
+Fixpoint lx_span (p : N -> bool) (s : str) : str * str :=
   match s with
   | [] => ([], [])
-  | c :: r => if p c then let '(a, b) := span p r in (c :: a, b) else ([], s)
+  | c :: r => if p c then let '(a, b) := lx_span p r in (c :: a, b) else ([], s)
   end.
 
-(* the result of one Cursor::advance: Ok(token of kind k) or Err *)
-Inductive lres := LTok (k : tkind) | LErr.
-Definition lout := (lres * str * str)%type.   (* result, data, rest *)
+(* the result of one Cursor::advance: Ok(token of kind k) or IErr *)
+Inductive lx_res := LxTok (k : tkind) | LxErr.
+Definition lx_out := (lx_res * str * str)%type.   (* result, data, rest *)
 
 (* ---- numbers.  `pre` is the text consumed so far ---- *)
 (* State::ExponentDigit at the first non-digit *)
-Definition num_after_exp (pre r : str) : lout :=
+Definition lx_num_after_exp (pre r : str) : lx_out :=
   match r with
-  | [] => (LTok Float, pre, [])
-  | c :: r' => if (c =? 46) || is_name_start c then (LErr, pre ++ [c], r') else (LTok Float, pre, r)
+  | [] => (LxTok TkFloat, pre, [])
+  | c :: r' => if (c =? 46) || is_name_start c then (LxErr, pre ++ [c], r') else (LxTok TkFloat, pre, r)
   end.
-Definition num_exp_digits (pre r : str) : lout :=
-  let '(ds, r2) := span is_digit r in num_after_exp (pre ++ ds) r2.
+Definition lx_num_exp_digits (pre r : str) : lx_out :=
+  let '(ds, r2) := lx_span is_digit r in lx_num_after_exp (pre ++ ds) r2.
 (* State::ExponentIndicator / ExponentSign *)
-Definition num_exp (pre r : str) : lout :=
+Definition lx_num_exp (pre r : str) : lx_out :=
   match r with
-  | [] => (LErr, pre, [])
+  | [] => (LxErr, pre, [])
   | c :: r' =>
-      if is_digit c then num_exp_digits (pre ++ [c]) r'
+      if is_digit c then lx_num_exp_digits (pre ++ [c]) r'
       else if (c =? 43) || (c =? 45) then
         match r' with
-        | [] => (LErr, pre ++ [c], [])
-        | d :: r'' => if is_digit d then num_exp_digits (pre ++ [c; d]) r'' else (LErr, pre ++ [c; d], r'')
+        | [] => (LxErr, pre ++ [c], [])
+        | d :: r'' => if is_digit d then lx_num_exp_digits (pre ++ [c; d]) r'' else (LxErr, pre ++ [c; d], r'')
         end
-      else (LErr, pre ++ [c], r')
+      else (LxErr, pre ++ [c], r')
   end.
 (* State::FractionalPart at the first non-digit *)
-Definition num_after_frac (pre r : str) : lout :=
+Definition lx_num_after_frac (pre r : str) : lx_out :=
   match r with
-  | [] => (LTok Float, pre, [])
+  | [] => (LxTok TkFloat, pre, [])
   | c :: r' =>
-      if is_exp_ind c then num_exp (pre ++ [c]) r'
-      else if (c =? 46) || is_name_start c then (LErr, pre ++ [c], r')
-      else (LTok Float, pre, r)
+      if lx_is_exp_ind c then lx_num_exp (pre ++ [c]) r'
+      else if (c =? 46) || is_name_start c then (LxErr, pre ++ [c], r')
+      else (LxTok TkFloat, pre, r)
   end.
 (* State::DecimalPoint *)
-Definition num_frac (pre r : str) : lout :=
+Definition lx_num_frac (pre r : str) : lx_out :=
   match r with
-  | [] => (LErr, pre, [])
+  | [] => (LxErr, pre, [])
   | c :: r' =>
-      if is_digit c then let '(ds, r2) := span is_digit r' in num_after_frac (pre ++ c :: ds) r2
-      else (LErr, pre ++ [c], r')
+      if is_digit c then let '(ds, r2) := lx_span is_digit r' in lx_num_after_frac (pre ++ c :: ds) r2
+      else (LxErr, pre ++ [c], r')
   end.
 (* State::LeadingZero (zero = true) / State::IntegerPart at the first non-digit (zero = false) *)
-Definition num_after_int (zero : bool) (pre r : str) : lout :=
+Definition lx_num_after_int (zero : bool) (pre r : str) : lx_out :=
   match r with
-  | [] => (LTok Int, pre, [])
+  | [] => (LxTok TkInt, pre, [])
   | c :: r' =>
-      if c =? 46 then num_frac (pre ++ [c]) r'
-      else if is_exp_ind c then num_exp (pre ++ [c]) r'
-      else if zero && is_digit c then (LErr, pre ++ [c], r')
-      else if is_name_start c then (LErr, pre ++ [c], r')
-      else (LTok Int, pre, r)
+      if c =? 46 then lx_num_frac (pre ++ [c]) r'
+      else if lx_is_exp_ind c then lx_num_exp (pre ++ [c]) r'
+      else if zero && is_digit c then (LxErr, pre ++ [c], r')
+      else if is_name_start c then (LxErr, pre ++ [c], r')
+      else (LxTok TkInt, pre, r)
   end.
-Definition num_int_digits (pre r : str) : lout :=
-  let '(ds, r2) := span is_digit r in num_after_int false (pre ++ ds) r2.
+Definition lx_num_int_digits (pre r : str) : lx_out :=
+  let '(ds, r2) := lx_span is_digit r in lx_num_after_int false (pre ++ ds) r2.
 (* State::MinusSign *)
-Definition num_minus (r : str) : lout :=
+Definition lx_num_minus (r : str) : lx_out :=
   match r with
-  | [] => (LErr, [45], [])
+  | [] => (LxErr, [45], [])
   | c :: r' =>
-      if c =? 48 then num_after_int true [45; 48] r'
-      else if is_digit c then num_int_digits [45; c] r'
-      else (LErr, [45; c], r')
+      if c =? 48 then lx_num_after_int true [45; 48] r'
+      else if is_digit c then lx_num_int_digits [45; c] r'
+      else (LxErr, [45; c], r')
   end.
 
 (* ---- State::SpreadOperator, after the first '.' ---- *)
-Definition lex_spread (r : str) : lout :=
+Definition lex_spread (r : str) : lx_out :=
   match r with
-  | [] => (LErr, [46], [])
+  | [] => (LxErr, [46], [])
   | c1 :: r1 =>
       if c1 =? 46 then
         match r1 with
-        | [] => (LErr, [46; 46], [])
-        | c2 :: r2 => if c2 =? 46 then (LTok Spread, [46; 46; 46], r2) else (LErr, [46; 46], r1)
+        | [] => (LxErr, [46; 46], [])
+        | c2 :: r2 => if c2 =? 46 then (LxTok TkSpread, [46; 46; 46], r2) else (LxErr, [46; 46], r1)
         end
-      else (LErr, [46; c1], r1)
+      else (LxErr, [46; c1], r1)
   end.
 
 (* ---- quoted strings ---- *)
-Inductive sstate :=
-| SStr                     (* State::StringLiteral *)
-| SBack                    (* State::StringLiteralBackslash *)
-| SUni (remaining : nat) (v : N).  (* State::StringLiteralEscapedUnicode(remaining); v = value of the digits read *)
+Inductive lx_sstate :=
+| LxSStr                     (* State::StringLiteral *)
+| LxSBack                    (* State::StringLiteralBackslash *)
+| LxSUni (remaining : nat) (v : N).  (* State::StringLiteralEscapedUnicode(remaining); v = value of the digits read *)
 
-Definition scons (c : N) (e : bool) (x : str * str * bool) : str * str * bool :=
+Definition lx_scons (c : N) (e : bool) (x : str * str * bool) : str * str * bool :=
   let '(d, rest, e') := x in (c :: d, rest, e || e').
 
 (* returns (data, rest, error?) ; error? = add_err was called, or the input ended (unterminated) *)
-Fixpoint scan_str (st : sstate) (s : str) : str * str * bool :=
+Fixpoint lx_scan_str (st : lx_sstate) (s : str) : str * str * bool :=
   match s with
   | [] => ([], [], true)
   | c :: r =>
       match st with
-      | SStr =>
+      | LxSStr =>
           if c =? 34 then ([c], r, false)
-          else if is_line_term c then scons c true (scan_str SStr r)
-          else if c =? 92 then scons c false (scan_str SBack r)
-          else scons c false (scan_str SStr r)
-      | SBack =>
-          if is_escaped_char c then scons c false (scan_str SStr r)
-          else if c =? 117 then scons c false (scan_str (SUni 4 0) r)
-          else scons c true (scan_str SStr r)
-      | SUni n v =>
+          else if lx_is_line_term c then lx_scons c true (lx_scan_str LxSStr r)
+          else if c =? 92 then lx_scons c false (lx_scan_str LxSBack r)
+          else lx_scons c false (lx_scan_str LxSStr r)
+      | LxSBack =>
+          if lx_is_escaped_char c then lx_scons c false (lx_scan_str LxSStr r)
+          else if c =? 117 then lx_scons c false (lx_scan_str (LxSUni 4 0) r)
+          else lx_scons c true (lx_scan_str LxSStr r)
+      | LxSUni n v =>
           if c =? 34 then ([c], r, true)
-          else if negb (is_hex c) then scons c true (scan_str SStr r)
+          else if negb (lx_is_hex c) then lx_scons c true (lx_scan_str LxSStr r)
           else
-            let v' := 16 * v + hexval c in
+            let v' := 16 * v + lx_hexval c in
             match n with
-            | S (S m) => scons c false (scan_str (SUni (S m) v') r)      (* remaining > 1 *)
-            | _ => scons c (is_surrogate v') (scan_str SStr r)           (* remaining <= 1: the 4th digit *)
+            | S (S m) => lx_scons c false (lx_scan_str (LxSUni (S m) v') r)      (* remaining > 1 *)
+            | _ => lx_scons c (lx_is_surrogate v') (lx_scan_str LxSStr r)           (* remaining <= 1: the 4th digit *)
             end
       end
   end.
 
 (* ---- block strings, after the opening triple quote.
    bs = State::BlockStringLiteralBackslash.  returns (data, rest, terminated?) ---- *)
-Definition bcons (c : N) (x : str * str * bool) : str * str * bool :=
+Definition lx_bcons (c : N) (x : str * str * bool) : str * str * bool :=
   let '(d, rest, t) := x in (c :: d, rest, t).
 
-Fixpoint scan_block (bs : bool) (s : str) : str * str * bool :=
+Fixpoint lx_scan_block (bs : bool) (s : str) : str * str * bool :=
   match s with
   | [] => ([], [], false)
   | c :: r =>
@@ -191,76 +191,76 @@ Fixpoint scan_block (bs : bool) (s : str) : str * str * bool :=
               | [] => ([c; q1], [], false)
               | q2 :: r2 =>
                   if q2 =? 34 then
-                    if bs then bcons c (bcons q1 (bcons q2 (scan_block false r2)))
+                    if bs then lx_bcons c (lx_bcons q1 (lx_bcons q2 (lx_scan_block false r2)))
                     else ([c; q1; q2], r2, true)
-                  else bcons c (bcons q1 (scan_block false r1))
+                  else lx_bcons c (lx_bcons q1 (lx_scan_block false r1))
               end
-            else bcons c (scan_block false r)
+            else lx_bcons c (lx_scan_block false r)
         end
-      else if c =? 92 then bcons c (scan_block true r)
-      else bcons c (scan_block false r)
+      else if c =? 92 then lx_bcons c (lx_scan_block true r)
+      else lx_bcons c (lx_scan_block false r)
   end.
 
 (* State::StringLiteralStart, after the opening quote *)
-Definition lex_string (r : str) : lout :=
+Definition lex_string (r : str) : lx_out :=
   match r with
-  | [] => (LErr, [34], [])
+  | [] => (LxErr, [34], [])
   | c :: r1 =>
       if c =? 34 then
         match r1 with
-        | [] => (LTok StringValue, [34; 34], [])
+        | [] => (LxTok TkStringValue, [34; 34], [])
         | q :: r2 =>
             if q =? 34 then
-              let '(d, rest, t) := scan_block false r2 in
-              (if t then LTok StringValue else LErr, 34 :: 34 :: 34 :: d, rest)
-            else (LTok StringValue, [34; 34], r1)
+              let '(d, rest, t) := lx_scan_block false r2 in
+              (if t then LxTok TkStringValue else LxErr, 34 :: 34 :: 34 :: d, rest)
+            else (LxTok TkStringValue, [34; 34], r1)
         end
       else
         (* the first character is not inspected by State::StringLiteral (the `continue` after
            `state = State::StringLiteral`): a line terminator here is not reported *)
-        let '(d, rest, e) := scan_str (if c =? 92 then SBack else SStr) r1 in
-        (if e then LErr else LTok StringValue, 34 :: c :: d, rest)
+        let '(d, rest, e) := lx_scan_str (if c =? 92 then LxSBack else LxSStr) r1 in
+        (if e then LxErr else LxTok TkStringValue, 34 :: c :: d, rest)
   end.
 
 (* ---- one Cursor::advance on a non-empty remaining input c :: r ---- *)
-Definition lex_one (c : N) (r : str) : lout :=
-  match punct_kind c with
-  | Some k => (LTok k, [c], r)
+Definition lex_one (c : N) (r : str) : lx_out :=
+  match lx_punct_kind c with
+  | Some k => (LxTok k, [c], r)
   | None =>
       if is_name_start c then
-        let '(d, rest) := span is_name_continue r in (LTok Name, c :: d, rest)
-      else if negb (c =? 48) && is_digit c then num_int_digits [c] r
+        let '(d, rest) := lx_span is_name_continue r in (LxTok TkName, c :: d, rest)
+      else if negb (c =? 48) && is_digit c then lx_num_int_digits [c] r
       else if c =? 34 then lex_string r
       else if c =? 35 then
-        let '(d, rest) := span not_line_term r in (LTok Comment, c :: d, rest)
+        let '(d, rest) := lx_span lx_not_line_term r in (LxTok TkComment, c :: d, rest)
       else if c =? 46 then lex_spread r
-      else if c =? 45 then num_minus r
-      else if c =? 48 then num_after_int true [48] r
-      else if is_ws c then
-        let '(d, rest) := span is_ws r in (LTok Whitespace, c :: d, rest)
-      else (LErr, [c], r)
+      else if c =? 45 then lx_num_minus r
+      else if c =? 48 then lx_num_after_int true [48] r
+      else if lx_is_ws c then
+        let '(d, rest) := lx_span lx_is_ws r in (LxTok TkWhitespace, c :: d, rest)
+      else (LxErr, [c], r)
   end.
 
-Definition mk_item (res : lres) (d : str) (idx : N) : item :=
-  match res with LTok k => Tok k d idx | LErr => Err ELex d idx end.
+Definition lex_mk_item (res : lx_res) (d : str) (idx : N) : item :=
+  match res with LxTok k => ITok k d idx | LxErr => IErr ELex d idx end.
 
 (* ---- the iterator without a limit.  None = out of fuel (excluded by LexProofs.lex_run_fuel) ---- *)
 Fixpoint lex_run (fuel : nat) (idx : N) (s : str) : option (list item) :=
   match s with
-  | [] => Some [Tok Eof [] idx]
+  | [] => Some [ITok TkEof [] idx]
   | c :: r =>
       match fuel with
       | O => None
       | S f =>
           let '(res, d, rest) := lex_one c r in
           match lex_run f (idx + blen d) rest with
-          | Some l => Some (mk_item res d idx :: l)
+          | Some l => Some (lex_mk_item res d idx :: l)
           | None => None
           end
       end
   end.
 
-(* [] is not a possible output (every output ends with Eof): it marks "out of fuel", which
+(* [] is not a possible output (every output ends with TkEof): it marks "out of fuel", which
    LexProofs.lex_all_run shows never happens. *)
 Definition lex_all (s : str) : list item :=
   match lex_run (S (length s)) 0 s with Some l => l | None => [] end.
@@ -270,10 +270,10 @@ Definition lex_all (s : str) : list item :=
    an item that reached the end of input through current_str's else branch or drain, where the code
    sets it to source.len() - 1 (visible only in the limit error's index). ---- *)
 Fixpoint lexl_run (fuel : nat) (limit cur total cidx idx : N) (s : str) : option (list item) :=
-  if limit <? cur + 1 then Some [Err ELimit [] cidx]
+  if limit <? cur + 1 then Some [IErr ELimit [] cidx]
   else
     match s with
-    | [] => Some [Tok Eof [] idx]
+    | [] => Some [ITok TkEof [] idx]
     | c :: r =>
         match fuel with
         | O => None
@@ -282,7 +282,7 @@ Fixpoint lexl_run (fuel : nat) (limit cur total cidx idx : N) (s : str) : option
             let idx' := idx + blen d in
             let cidx' := match rest with [] => total - 1 | _ => idx' end in
             match lexl_run f limit (cur + 1) total cidx' idx' rest with
-            | Some l => Some (mk_item res d idx :: l)
+            | Some l => Some (lex_mk_item res d idx :: l)
             | None => None
             end
         end
